@@ -17,7 +17,7 @@ from streams.cluster import hx
 
 NO_MODEL = True
 HEADER = 3
-REQUIRED_SHAPES = ["get_vs_delete", "get_vs_put", "put_vs_get_blocked", "delete_vs_get", "janitor_vs_first_put", "janitor_vs_put_after_delete",
+REQUIRED_SHAPES = ["put_inside_janitor_window", "get_vs_delete", "get_vs_put", "put_vs_get_blocked", "delete_vs_get", "janitor_vs_first_put", "janitor_vs_put_after_delete",
                    "repair_vs_delete", "conditional_race", "concurrent_history", "linearizable_checked"]
 
 
@@ -132,6 +132,8 @@ class Oracle:
                      "put.replicated": {"c.get": "put_vs_get_blocked", "c.put": "conditional_race"},
                      "del.others-deleted": {"c.get": "delete_vs_get"},
                      "get.before-repair": {"c.del": "repair_vs_delete"}}.get(a[0], {}).get(inner.split()[0])
+            if a[0] == "janitor.locking":
+                shape = "put_inside_janitor_window"
             if a[0] == "put.loaded" and inner.startswith("bg.janitor"):
                 shape = "janitor_vs_put_after_delete" if any(h[2] == "del" for h in self.hist.get(tuple(outer.split()[3:5]), [])) else "janitor_vs_first_put"
             if shape:
@@ -176,7 +178,27 @@ class Gen:
     def __init__(self, rng, tier="quick"):
         self.rng = rng
 
+    def janitor_window(self, orc):
+        """directed: one member, one partition, one DMap whose only fragment is empty (its last key was deleted).  The
+        empty-fragment janitor is stopped at the moment it is about to lock that fragment; a Put runs there and is
+        acknowledged; the janitor goes on.  It looks at the fragment under the lock it holds: the Put is kept."""
+        r = self.rng
+        yield "watchdog 60s"
+        yield "clock 0"
+        yield "c.new n=1 r=1 w=1 rq=1 rr=0 parts=1 tsize=4096"
+        for i in range(4):
+            key = hx(b"jw%d" % i)
+            yield "c.put emb 0 only %s %s" % (key, hx(b"a%d" % i))
+            yield "c.del emb 0 only %s" % key
+            yield "c.inter janitor.locking bg.janitor -- c.put %s 0 only %s %s" % (r.choice(["emb", "cli", "raw"]), key, hx(b"b%d" % i))
+            yield "c.get emb 0 only %s" % key
+            yield "wb only %s" % key
+            yield "c.del emb 0 only %s" % key
+
     def episode(self, orc, nops):
+        if getattr(self, "ep", 0) % 5 == 4:
+            yield from self.janitor_window(orc)
+            return
         r = self.rng
         n = r.choice([1, 2, 3, 3])
         R = r.choice([1, 2, 3]) if n > 1 else 1
